@@ -61,6 +61,35 @@ Proof.
   exists a'. split; auto. apply remove_from_buffer_ok in H2. tauto.
 Qed.
 
+(* frame of "put job j; move job j; set control fields of machine m": every other job, machine and all
+   transports keep their records (machines/transports up to the buffers named in the move) *)
+Lemma frame_jobs_move x0 j A B x1 j' :
+  A <> B -> move_job i x0 j A B = Ok x1 -> j' <> j -> nth_error (s_jobs x1) j' = nth_error (s_jobs x0) j'.
+Proof.
+  intros Hne Hm Hj. pose proof (move_job_moved i _ _ _ _ _ Hne Hm) as M.
+  destruct (mv_job _ _ _ _ _ _ M) as [jb [_ Hjobs]]. rewrite Hjobs. apply nth_upd_other. congruence.
+Qed.
+
+Lemma frame_jobs_put x j jb1 j' : j' <> j -> nth_error (s_jobs (put_job x j jb1)) j' = nth_error (s_jobs x) j'.
+Proof. intros H. unfold put_job; simpl. apply nth_upd_other. congruence. Qed.
+
+(* a machine other than those owning A or B is untouched by the move *)
+Lemma frame_mach_move x0 j A B x1 m' :
+  A <> B -> move_job i x0 j A B = Ok x1 ->
+  (forall L, (L = BPre m' \/ L = BIn m' \/ L = BPost m') -> L <> A /\ L <> B) ->
+  nth_error (s_machs x1) m' = nth_error (s_machs x0) m'.
+Proof.
+  intros Hne Hm Hout. pose proof (move_job_moved i _ _ _ _ _ Hne Hm) as M.
+  destruct (nth_error (s_machs x1) m') as [ms1|] eqn:E1.
+  - destruct (mv_machs _ _ _ _ _ _ M _ _ E1) as [ms0 [E0 [C1 [C2 [C3 C4]]]]]. rewrite E0. f_equal.
+    assert (P : get_buf x1 (BPre m') = get_buf x0 (BPre m')) by (apply (mv_other _ _ _ _ _ _ M); apply Hout; auto).
+    assert (Q : get_buf x1 (BIn m') = get_buf x0 (BIn m')) by (apply (mv_other _ _ _ _ _ _ M); apply Hout; auto).
+    assert (R : get_buf x1 (BPost m') = get_buf x0 (BPost m')) by (apply (mv_other _ _ _ _ _ _ M); apply Hout; auto).
+    simpl in P, Q, R. rewrite E1, E0 in P, Q, R. simpl in P, Q, R. inversion P; inversion Q; inversion R.
+    destruct ms1, ms0; simpl in *; congruence.
+  - apply nth_error_None in E1. rewrite (mv_len_m _ _ _ _ _ _ M) in E1. symmetry. apply nth_error_None. auto.
+Qed.
+
 (* ---------- IDLE -> SETUP (C09) ---------- *)
 Theorem post_idle_setup x tr m ms x' :
   nth_error (s_machs x) m = Some ms -> h_m_idle_setup sigma i x tr m ms = Ok x' ->
